@@ -76,7 +76,33 @@ func VerifC11Size() {
 		}
 		return ops
 	}
-	switch sym.Choice("scenario", 4) {
+	switch sym.Choice("scenario", 5) {
+	case 4: // a partial store built from a block (writes and delete_prefix), saved and loaded back
+		part := cfg.NewPartialKV(100, vNop())
+		for _, o := range symBlock() {
+			vRecord(part, p, o)
+		}
+		if err := part.Flush(); err != nil {
+			return
+		}
+		part.Reset()
+		file, w, err := part.Save(200)
+		if err != nil {
+			sym.Unreachable("partial-save-ok")
+			return
+		}
+		if err := w.Write(context.Background()); err != nil {
+			sym.Unreachable("partial-write-ok")
+			return
+		}
+		back := cfg.NewPartialKV(100, vNop())
+		if err := back.Load(context.Background(), file); err != nil {
+			sym.Unreachable("partial-load-ok")
+			return
+		}
+		sym.Reach("partial-save-load")
+		vCheckSize(back.baseStore, "size-of-loaded-partial")
+		sym.Assert(len(back.DeletedPrefixes) == len(part.DeletedPrefixes), "loaded-partial-same-prefix-count")
 	case 0: // a block of operations
 		if !block(symBlock()) {
 			return
